@@ -68,4 +68,35 @@ Section C07b.
       [apply (brep_idle sep limit keep_end dec None 0); exact I | exact Hs | exact Hf |].
     eexists; eexists; split; [exact Hd | apply spec_no_limit_err].
   Qed.
+
+  Lemma held_bound_buffered_l (fills : list bytes) fuel :
+    length (concat fills) < fuel ->
+    fills_fit (bru_framer sep limit keep_end dec) sizehint fuel (bcinit _) fills ->
+    exists c' evs,
+      bcfills (bru_framer sep limit keep_end dec) sizehint fuel (bcinit _) fills = (c', evs) /\
+      match bmem c' with Some m => length m = limit | None => True end /\
+      match bcons c' with Some (buflen, _) => buflen + 2 <= limit | None => True end.
+  Proof.
+    intros Hf Hfit.
+    assert (Hidle : brep sep limit keep_end dec (bcinit (bru_framer sep limit keep_end dec)) [])
+      by (apply (brep_idle sep limit keep_end dec None 0); exact I).
+    pose proof (fills_fit_run sep limit keep_end dec sizehint sep_ne limit_ok fuel fills _ [] Hidle Hf Hfit) as Hfr.
+    destruct (bcfills_rep sep limit keep_end dec sizehint sep_ne limit_ok fuel fills _ [] Hidle Hfr Hf)
+      as (c' & w' & evs & Hd & Hc' & _).
+    exists c', evs. split; [exact Hd|]. destruct Hc' as [m st Hm | m off w Hm Hne Hl Hfm Hinv Hnf Hx]; cbn.
+    - split; [destruct m; [exact Hm | exact I] | exact I].
+    - split; [exact Hm | exact Hl].
+  Qed.
+
+  Lemma overrun_raised_buffered_l (fills : list bytes) fuel :
+    find0 sep (concat fills) = None -> limit < length (concat fills) + 2 -> length (concat fills) < fuel ->
+    fills_fit (bru_framer sep limit keep_end dec) sizehint fuel (bcinit _) fills ->
+    exists c' evs, bcfills (bru_framer sep limit keep_end dec) sizehint fuel (bcinit _) fills = (c', RErr ELimit :: evs).
+  Proof.
+    intros Hnf Hl Hf Hfit.
+    assert (Hidle : brep sep limit keep_end dec (bcinit (bru_framer sep limit keep_end dec)) [])
+      by (apply (brep_idle sep limit keep_end dec None 0); exact I).
+    pose proof (fills_fit_run sep limit keep_end dec sizehint sep_ne limit_ok fuel fills _ [] Hidle Hf Hfit) as Hfr.
+    exact (overrun_raised_rounds sep limit keep_end dec sizehint sep_ne limit_ok fuel fills _ [] Hidle Hfr Hnf Hl Hf).
+  Qed.
 End C07b.
